@@ -6,7 +6,7 @@ static size_t unhexs(const char *s, unsigned char *buf, size_t cap)
 { size_t n = 0; if (s[0] == 'x' && s[1] == ':') s += 2; while (s[0] && s[1] && n < cap) { unsigned v; sscanf(s, "%2x", &v); buf[n++] = (unsigned char)v; s += 2; } return n; }
 void out_bytes(const unsigned char *p, size_t n)
 { char *b = (char *) malloc(2 * n + 3); b[0] = 'x'; b[1] = ':'; for (size_t i = 0; i < n; i++) sprintf(b + 2 + 2 * i, "%02x", p[i]); b[2 + 2 * n] = 0; outs(b); free(b); }
-static unsigned char sbuf[1 << 20];
+static __thread unsigned char sbuf[1 << 20];
 
 /* mpz_set_str base x:bytes : return value, and the value when accepted; mpz_init_set_str must agree */
 static void op_set_str(int argc, char **argv)
